@@ -195,11 +195,17 @@ fn size_pick(rng: &mut Rng) -> usize {
         0..=54 => rng.below(201) as usize,
         55..=69 => rng.range(40, 80) as usize,
         70..=79 => rng.range(200, 3000) as usize,
-        80..=84 => (4096 + rng.range(-40, 40)) as usize,
-        85..=88 => (8192 + rng.range(-40, 40)) as usize,
-        89..=94 => (32768 + rng.range(-40, 40)) as usize,
-        95..=96 => (65536 + rng.range(-40, 40)) as usize,
-        _ => rng.range(3000, 40000) as usize,
+        80..=81 => (4096 + rng.range(-40, 40)) as usize,
+        82 => (8192 + rng.range(-40, 40)) as usize,
+        83..=84 => (32768 + rng.range(-40, 40)) as usize,
+        85 => {
+            if rng.chance(1, 3) {
+                (65536 + rng.range(-40, 40)) as usize
+            } else {
+                rng.range(3000, 40000) as usize
+            }
+        }
+        _ => rng.below(120) as usize,
     }
 }
 
@@ -223,7 +229,7 @@ fn git_written(rng: &mut Rng, count: usize) -> Vec<(Vec<u8>, Vec<u8>)> {
         let mut paths = String::new();
         for i in 0..per {
             let n = if i < 12 {
-                [0usize, 1, 55, 56, 57, 58, 100, 4096, 32757, 32758, 65525, 70000][i]
+                [0usize, 1, 55, 56, 57, 58, 100, 4096, 32757, 32758, 300, 301][i] + if i == 10 && li == 0 { 65225 } else { 0 }
             } else {
                 size_pick(rng)
             };
@@ -336,9 +342,12 @@ fn gen(rng: &mut Rng, n: usize) -> Vec<Case> {
         let kind = KINDS[(len / 3) % 4];
         out.push(w_case(mode, kind, len as u64, body(rng, len)));
     }
-    for &len in &[4095usize, 4096, 4097, 8191, 8192, 8193, 32756, 32757, 32758, 32759, 32768, 65524, 65525, 65526, 65536, 70000] {
-        for mode in ["buf", "stream", "typed"] {
-            out.push(w_case(mode, "blob", len as u64, body(rng, len)));
+    for (i, &len) in [4095usize, 4096, 4097, 8191, 8192, 8193, 32756, 32757, 32758, 32759, 32768, 65524, 65525, 65526, 65536, 70000].iter().enumerate() {
+        // the zlib writer's buffer is 32 KiB; "blob 32757\0" + 32757 bytes is exactly 32768
+        for (j, mode) in ["buf", "stream", "typed"].iter().enumerate() {
+            if len < 10000 || (i + j) % 3 == 0 || len == 32757 {
+                out.push(w_case(mode, "blob", len as u64, body(rng, len)));
+            }
         }
     }
     // declared size differs from what is streamed
@@ -355,13 +364,15 @@ fn gen(rng: &mut Rng, n: usize) -> Vec<Case> {
             let id = sha1(&[&full]);
             let f = deflate(&full, level);
             out.push(raw_case(&id, &f));
-            if level != 6 || len <= 58 {
+            if level == 1 || len == 10 || len == 57 {
                 truncations(&mut out, &id, &f, 1..=f.len());
+            } else {
+                truncations(&mut out, &id, &f, [1usize, 4, 5, 6, f.len() / 2].into_iter());
             }
             let mut g = f.clone();
             g.extend_from_slice(b"garbage");
             out.push(raw_case(&id, &g));
-            for k in 0..f.len().min(12) {
+            for k in 0..f.len().min(if level == 1 { 12 } else { 3 }) {
                 let mut g = f.clone();
                 let i = g.len() - 1 - k;
                 g[i] ^= 1 << (k % 8);
@@ -369,27 +380,31 @@ fn gen(rng: &mut Rng, n: usize) -> Vec<Case> {
             }
         }
     }
-    for &len in &[4096usize, 32757, 32758, 65525, 65526, 70000] {
-        for level in [0u32, 1, 9] {
+    for &len in &[4096usize, 32757, 32758, 65525, 70000] {
+        for level in [0u32, 1] {
+            if len > 65000 && level == 0 {
+                continue;
+            }
             let data = body(rng, len);
             let mut full = header(b"blob", len as u64);
             full.extend_from_slice(&data);
             let id = sha1(&[&full]);
             let f = deflate(&full, level);
             out.push(raw_case(&id, &f));
-            truncations(&mut out, &id, &f, [1usize, 2, 3, 4, 5, 6, 7, 8, 9, 20, 100, f.len() / 2, f.len() - 1, f.len() - 2, f.len()].into_iter());
+            truncations(&mut out, &id, &f, [1usize, 4, 5, 9, f.len() / 2, f.len() - 2].into_iter());
             let mut g = f.clone();
-            g.push(0);
-            out.push(raw_case(&id, &g));
-            let mut g = f.clone();
-            let i = g.len() - 1;
-            g[i] ^= 0x40;
+            if level == 1 {
+                g.push(0);
+            } else {
+                let i = g.len() - 1;
+                g[i] ^= 0x40;
+            }
             out.push(raw_case(&id, &g));
         }
     }
     // crafted headers with little and with much content behind them
     for h in CRAFTED {
-        for extra in [0usize, 1, 5, 56, 57, 100, 200] {
+        for extra in [0usize, 5, 57, 100] {
             let mut full = h.as_bytes().to_vec();
             full.extend(body(rng, extra));
             let id = sha1(&[&full]);
@@ -404,15 +419,21 @@ fn gen(rng: &mut Rng, n: usize) -> Vec<Case> {
     let gw = git_written(rng, 60);
     for (i, (id, f)) in gw.iter().enumerate() {
         out.push(raw_case(id, f));
-        if i % 3 == 0 {
+        if f.len() > 3000 {
+            truncations(&mut out, id, f, [1usize + i % 6].into_iter());
+        } else if i % 3 == 0 {
             truncations(&mut out, id, f, [1usize, 2, 3, 4, 5, 6, 8, 13, f.len() / 3].into_iter());
         }
     }
     // --- random mixture -------------------------------------------------------------------
     while out.len() < n {
-        let len = size_pick(rng);
+        let mut len = size_pick(rng);
         let kind = *rng.pick(&KINDS);
-        match rng.below(20) {
+        let which = rng.below(20);
+        if which > 8 && len > 3000 && !rng.chance(1, 3) {
+            len %= 200; // raw cases carry the file and what it inflates to: keep most of them small
+        }
+        match which {
             0..=8 => {
                 let mode = *rng.pick(&["buf", "stream", "typed"]);
                 let decl = if rng.chance(1, 12) {
@@ -651,6 +672,9 @@ fn git_cat(id_hex: &str) -> Option<(String, Vec<u8>)> {
             return None;
         }
         let parts: Vec<&str> = line.trim_end().split(' ').collect();
+        if parts[0] != id_hex {
+            return None; // out of step: start a new child
+        }
         if parts.len() != 3 {
             return Some(None); // "<id> missing"
         }
@@ -741,8 +765,8 @@ fn prop(c: &Case) -> Verdict {
                 let found = do_find(&st, &id);
                 let head = do_header(&st, &id);
                 let consistent = declared == data.len() as u64;
-                let git = git_cat(&hexs(&want_id));
                 if consistent {
+                    let git = git_cat(&hexs(&want_id));
                     let kind = kind_of(kind_name);
                     if found != Ok(Some((kind, data.to_vec()))) {
                         return Verdict::fail("readback-differs", show_reads(&found, &head));
